@@ -401,6 +401,9 @@ class BaseDAG(Generic[P, RVDAG]):
                     # if dependency of xn is an input_id of the newly composed DAG.
                     if xn_dep.id == old_id:
                         xn.kwargs[xn_dep_name] = UsageExecNode(new_id, xn_dep.key)
+                # the activation (twz_active) is a dependency like the arguments
+                if xn.active is not None and xn.active.id == old_id:
+                    object.__setattr__(xn, "active", UsageExecNode(new_id, xn.active.key))
 
         # 5.3 make the inputs and outputs UXNs for the composed DAG
         in_uxns = [UsageExecNode(xn_id) for xn_id in new_in_ids]
